@@ -56,6 +56,7 @@ SetIndex(i) ==     \* i in -N..N-1; negative counts from the end
 SetTime(p) == /\ p \in Probes /\ idx' \in Nearest(p) /\ Log("time", p, idx', TRUE)
 SetStep(p) == /\ p \in Probes /\ idx' \in Nearest(p) /\ Log("step", p, idx', TRUE)
 History(k) ==      \* history(selection k): the reader shows the same result set afterwards
+                   \* (k = 3: a selection that matches nothing - the call returns nothing, and still changes nothing)
     /\ idx' = idx /\ Log("history", k, idx, TRUE)
 
 Next ==
@@ -63,7 +64,7 @@ Next ==
     /\ \/ First \/ Last \/ NextStep \/ PrevStep
        \/ \E i \in (0 - N)..(N - 1) : SetIndex(i)
        \/ \E p \in Probes : SetTime(p) \/ SetStep(p)
-       \/ \E k \in 1..2 : History(k)
+       \/ \E k \in 1..3 : History(k)
 
 Spec == Init /\ [][Next]_vars
 
